@@ -340,9 +340,79 @@ def history_full (fx : Fixes) : Prop :=
   ∀ (l c : Int) (ops : List Op) (s : HSt), 0 < l → 0 < c →
     runOps fx { tree := newRoot l c } (ops ++ [.flush]) = .ok s → s.term.matches (cursorSpec s.tree) = true
 
-/-- The store invariant is preserved by every operation (OPEN; evaluated on every observed tree at run time). -/
+/-- The store invariant is preserved by every operation (full statement; OPEN for `newWin`, `closeW` and for a flush
+    whose queue was filled by something else than the four restacking requests). -/
 def wf_preserved_full (fx : Fixes) : Prop :=
   ∀ (s s' : HSt) (op : Op), wfB s.tree = true → stepOp fx s op = .ok s' → wfB s'.tree = true
+
+/-- The operations for which preservation of the invariant is proved. -/
+def Op.covered : Op → Bool
+  | .newWin .. | .closeW _ | .flush => false
+  | _ => true
+
+/-- `chain_visible` and the structural invariants survive take-focus, the cursor setters, the notification switch,
+    show, hide, restacking requests, geometry changes with their exposes, and expose — for every tree. -/
+theorem wf_preserved (fx : Fixes) (s s' : HSt) (op : Op) (hc : op.covered = true) (hwf : wfB s.tree = true)
+    (hs : stepOp fx s op = .ok s') : wfB s'.tree = true := by
+  cases op with
+  | newWin => cases hc
+  | closeW => cases hc
+  | flush => cases hc
+  | focus w =>
+    simp only [stepOp, bind_ok, pure_ok] at hs
+    obtain ⟨x, hx, hs⟩ := hs; subst hs; exact takeFocus_wf hwf hx
+  | curpos w l c =>
+    simp only [stepOp, bind_ok, pure_ok] at hs
+    obtain ⟨x, hx, hs⟩ := hs; subst hs
+    exact cursor_setter_wf (fun cu => { cu with line := l, col := c }) hwf hx
+  | curvis w v =>
+    simp only [stepOp, bind_ok, pure_ok] at hs
+    obtain ⟨x, hx, hs⟩ := hs; subst hs
+    exact cursor_setter_wf (fun cu => { cu with visible := bit1 v }) hwf hx
+  | curshape w v =>
+    simp only [stepOp, bind_ok, pure_ok] at hs
+    obtain ⟨x, hx, hs⟩ := hs; subst hs
+    exact cursor_setter_wf (fun cu => { cu with shape := v }) hwf hx
+  | curblink w v =>
+    simp only [stepOp, bind_ok, pure_ok] at hs
+    obtain ⟨x, hx, hs⟩ := hs; subst hs
+    exact cursor_setter_wf (fun cu => { cu with blink := if v ≠ 0 then 1 else 0 }) hwf hx
+  | notify w v =>
+    simp only [stepOp, bind_ok, pure_ok] at hs
+    obtain ⟨x, hx, hs⟩ := hs; subst hs; exact notify_wf hwf hx
+  | showW w =>
+    simp only [stepOp, bind_ok, pure_ok] at hs
+    obtain ⟨x, hx, hs⟩ := hs; subst hs; exact showWin_wf hwf hx
+  | hideW w =>
+    simp only [stepOp, bind_ok, pure_ok] at hs
+    obtain ⟨x, hx, hs⟩ := hs; subst hs; exact hideWin_wf hwf hx
+  | restack ch w =>
+    simp only [stepOp, bind_ok, pure_ok] at hs
+    obtain ⟨x, hx, hs⟩ := hs; subst hs; exact requestHierarchyChange_wf hwf hx
+  | move w r =>
+    simp only [stepOp, bind_ok] at hs
+    obtain ⟨ww, _, x, hx, hs⟩ := hs
+    have h1 := setGeometry_wf hwf hx
+    split at hs
+    · simp only [pure_ok] at hs; subst hs; exact h1
+    · simp only [bind_ok, pure_ok] at hs
+      obtain ⟨t1, ht1, t2, ht2, hs⟩ := hs
+      subst hs; exact expose_wf (expose_wf h1 ht1) ht2
+  | exposeW w r =>
+    simp only [stepOp, bind_ok, pure_ok] at hs
+    obtain ⟨x, hx, hs⟩ := hs; subst hs; exact expose_wf hwf hx
+
+/-- A flush whose queue holds restacking requests only (all the public API can put there) preserves the invariant. -/
+theorem flush_preserves_wf (fx : Fixes) (t : Tree) (out : FlushOut) (hwf : wfB t = true)
+    (hq : ∀ r ∈ t.root.changes, r.change.isRestack = true) (hf : flush fx t = .ok out) : wfB out.tree = true :=
+  flush_wf hwf hq hf
+
+/-- `flush_cursor` for the repaired `_do_restore`, with every hypothesis on the state *before* the flush. -/
+theorem flush_cursor_repaired (fx : Fixes) (hfx : fx.hiddenRoot = true) (t : Tree) (out : FlushOut)
+    (hf : flush fx t = .ok out) (hwf : wfB t = true) (hq : ∀ r ∈ t.root.changes, r.change.isRestack = true)
+    (hl : t.root.needsLater = true) (hr : t.root.needsRestore = true ∨ t.root.needsExpose = true) (c0 : TermCursor) :
+    (c0.applyAll out.calls).matches (cursorSpec out.tree) = true :=
+  flush_cursor fx t out hf hl hr (flush_wf hwf hq hf) (.inl hfx) c0
 
 /-! ### the source is as the model assumes (regenerated from the working tree on every run) -/
 
